@@ -143,7 +143,7 @@ func runCheck(p *PropCheck, tier string) int {
 		seen := map[string]int{}
 		for _, v := range j.res.Violations {
 			f := Finding{Obligation: j.ID, Kind: v.Kind, Msg: v.Msg, Inputs: v.Extra["inputs"], Entry: j.Entry, PkgDir: j.Pkg}
-			if v.Kind == "panic" || v.Kind == "blocked" {
+			if v.Kind == "panic" || v.Kind == "blocked" || v.Kind == "alloc" {
 				f.Msg = stripSite(v.Msg)
 				f.Fn = v.Site
 			}
